@@ -1,13 +1,13 @@
 /-
 The connection model joined to the byte stream and to the clock (C10):
 
-* `reader`  ← `connection.rs` `reader` (1608-1672) over `read_response_frame`: the bytes received so far are
+* `reader`  ← `connection.rs` `reader` (1621-1685) over `read_response_frame`: the bytes received so far are
   consumed frame by frame; a frame on a negative stream is ignored (`-1` = event, no event sender here; `< -1`
   reserved); a frame on stream `s ≥ 0` is looked up — the answer of the outstanding request on `s`, or an
   unsolicited frame; a bad header ends the router; a cut header / body — or NO byte at all, i.e. EOF exactly on
   a frame boundary — ends the router as soon as the peer has closed (`read_exact` / `read_buf` fail:
   `FrameHeaderParseError`), and otherwise waits for more bytes.
-* `kaTurn`  ← `keepaliver` (1788-1865) under an explicit clock (ms): `interval.tick()` with
+* `kaTurn`  ← `keepaliver` (1801-1878) under an explicit clock (ms): `interval.tick()` with
   `MissedTickBehavior::Delay`, the keep-alive request is an ordinary `send_request`, `tokio::time::timeout`
   around it.
 -/
